@@ -42,11 +42,15 @@ def main():
             out.append(body); continue
         parts = [p.strip() for p in m.group(1).split("|")]
         rel, container, name = parts[0], parts[1], parts[2]
-        occ = 0
+        occ = 0; subst = []
         for p in parts[3:]:
             if p.startswith("occ="): occ = int(p[4:])
-        if rel not in srcs: srcs[rel] = SourceFile(os.path.join(a.repo, rel))
-        st = srcs[rel].find(container, name, occ)
+            if p.startswith("subst="):
+                for kv in p[6:].split(","):
+                    k_, v_ = kv.split(":", 1); subst.append((k_.strip(), v_.strip()))
+        key = (rel, tuple(subst))
+        if key not in srcs: srcs[key] = SourceFile(os.path.join(a.repo, rel), tuple(subst))
+        st = srcs[key].find(container, name, occ)
         if st is None:
             print("NOT FOUND:", m.group(1)); problems += 1; out.append(body); continue
         pre = "//@ item x | - | y\n"
